@@ -20,7 +20,7 @@
 namespace hm {
 
 static const char* OPK[] = {"create", "release", "call", "destroy_mock", "move_mock", "destroy_seq", "move_seq", "new_watched",
-  "delete_watched", "copy_watched", "movecons_watched", "assign_watched", "moveassign_watched", "monitor", "push_tracer", "pop_tracer", "set_reporter", "arm_reporter_to_destroy"};
+  "delete_watched", "copy_watched", "movecons_watched", "assign_watched", "moveassign_watched", "monitor", "push_tracer", "pop_tracer", "set_reporter", "assign_fresh_seq", "arm_reporter_to_destroy"};
 static const char* FNN[] = {"f", "g", "f2", "v", "r", "cr"};
 static const char* OKN[] = {"done", "accept", "thrown", "nomatch", "forbidden", "seqmis", "logic_error", "nested_fatal", "other"};
 static const char* RKN[] = {"nomatch", "forbidden", "seqmis", "unfulfilled", "pending_destroyed", "seq_teardown", "still_alive", "unexpected_destruction", "other"};
@@ -45,7 +45,7 @@ std::string op_str(const Op& op) {
     case OP_CALL: o << " obj" << (int)op.obj << '.' << FNN[op.fn] << '(' << (int)op.a1; if (op.fn == F2) o << ',' << (int)op.a2; o << ')'; break;
     case OP_DESTROY_MOCK: case OP_ARM_REPORTER: o << " obj" << (int)op.obj; break;
     case OP_MOVE_MOCK: o << " obj" << (int)op.obj << " -> obj" << (int)op.k1; break;
-    case OP_DESTROY_SEQ: case OP_MOVE_SEQ: o << " s" << (int)op.s1; break;
+    case OP_DESTROY_SEQ: case OP_MOVE_SEQ: case OP_ASSIGN_SEQ: o << " s" << (int)op.s1; break;
     case OP_NEW_WATCHED: case OP_DELETE_WATCHED: o << " w" << (int)op.obj; break;
     case OP_COPY_WATCHED: case OP_MOVECONS_WATCHED: o << " w" << (int)op.obj << " -> new w" << (int)op.k1; break;
     case OP_ASSIGN_WATCHED: case OP_MOVEASSIGN_WATCHED: o << " w" << (int)op.obj << " = w" << (int)op.k1; break;
@@ -183,7 +183,7 @@ static HistoryResult run_history(const std::vector<Op>& ops, unsigned mask, cons
     const bool armed_before = model.st.armed != 0;
     sc.mo = model.step(ops[k]);
     sc.io = world.apply(ops[k]);
-    bool sorted = ops[k].kind == OP_DESTROY_MOCK || ops[k].kind == OP_DELETE_WATCHED || ((ops[k].kind == OP_RELEASE || ops[k].kind == OP_DESTROY_SEQ) && armed_before);
+    bool sorted = ops[k].kind == OP_DESTROY_MOCK || ops[k].kind == OP_DELETE_WATCHED || ((ops[k].kind == OP_RELEASE || ops[k].kind == OP_DESTROY_SEQ || ops[k].kind == OP_ASSIGN_SEQ) && armed_before);
     sc.dev = deviation(sc.mo, sc.io, sorted, &r.lenient);
     std::string sck = model.selfcheck();
     if (!sck.empty() && r.selfcheck.empty()) r.selfcheck = sck;
